@@ -161,6 +161,19 @@ def payload(r, topic, slot=("plain", 1), depth=("missing", 0), root=("missing", 
     return desc, [txt]
 
 
+def inside_strings(txt):
+    """positions strictly inside the string literals of a JSON text (no escapes in the texts made here)"""
+    out, start = [], None
+    for i, c in enumerate(txt):
+        if c == '"':
+            if start is None:
+                start = i
+            else:
+                out += list(range(start + 2, i)) if i - start >= 3 else []
+                start = None
+    return out
+
+
 def pieces(r, desc, mem, n=1, cut="tok"):
     """the data lines of a payload: [(piece descriptor fields, text)]; cut "tok": between members, "str": the first cut is inside a token"""
     if desc["shape"] != "obj":
@@ -182,7 +195,7 @@ def pieces(r, desc, mem, n=1, cut="tok"):
     if cut == "str":
         # move the first boundary into the middle of a string token: the last member of the first part is split
         a = parts[0]
-        k = r.choice([m.start() for m in re.finditer(r'"[^"]{3,}"', a)]) + 2      # inside a string literal (a key at least)
+        k = r.choice(inside_strings(a))      # inside a string literal (a key at least)
         if len(parts) == 1:
             parts = [a[:k], a[k:]]
             kinds = ["str", "tok"]
@@ -305,8 +318,8 @@ def chunk_steps(r, a, rl, t, mode=None, gap=None, skip=0):
         while li < len(ends) and ends[li] <= c:
             done.append(rl[li][0])
             li += 1
-        pend = data[c - 1] != "\n"
-        steps.append({"ev": "Chunk", "at": t, "a": a, "b": data[prev:c], "ln": done, "part": pend})
+        cont, pend = pend, data[c - 1] != "\n"
+        steps.append({"ev": "Chunk", "at": t, "a": a, "b": data[prev:c], "ln": done, "part": pend, "cont": cont})
         prev = c
         g = gap if gap is not None else r.choice([0, 0, 0, 1, 7, 50, 400])
         t += g
@@ -535,7 +548,7 @@ def sc_life(r, big):
                 fr = render(r, good_frame(r, cfg, t), crlf=False)
                 data = "".join(b for _, b in fr)
                 k = r.randint(1, len(fr[0][1]) - 1)
-                steps.append({"ev": "Chunk", "at": t, "a": a, "b": data[:k], "ln": [], "part": True})
+                steps.append({"ev": "Chunk", "at": t, "a": a, "b": data[:k], "ln": [], "part": True, "cont": False})
                 t += r.choice([0, 1, 400])
                 if r.random() < 0.6:       # ... and the stream ends inside the line
                     steps.append({"ev": "Close", "at": t, "a": a, "how": r.choice(["eof", "eof", "abrupt", "reset"])})
@@ -722,12 +735,14 @@ def from_hist(r, hist):
                     nxt = j
                     break
             if nxt is None:
-                steps.append({"ev": "Chunk", "at": at, "a": a, "b": 'data: {"sl', "ln": [], "part": True})
+                steps.append({"ev": "Chunk", "at": at, "a": a, "b": 'data: {"sl', "ln": [], "part": True, "cont": False})
                 pend[a] = (-1, 0)
             else:
                 first = render(r, [model_line(hist[nxt]["lines"][0])], crlf=False)[0][1]
+                if len(first) < 2:
+                    continue            # a blank line cannot be cut
                 cut = r.randint(1, len(first) - 1)
-                steps.append({"ev": "Chunk", "at": at, "a": a, "b": first[:cut], "ln": [], "part": True})
+                steps.append({"ev": "Chunk", "at": at, "a": a, "b": first[:cut], "ln": [], "part": True, "cont": False})
                 pend[a] = (nxt, cut)
         elif e["ev"] == "Feed":
             a = e["a"]
@@ -767,7 +782,7 @@ def probes():
     out["F2"] = [c] + sub + fr(c, 1, 2500, head(c, 2500, 10))
     c = base(2, "probe-F3")
     out["F3"] = [c] + sub + fr(c, 1, 100, head(c, 100, 10)) + [{"ev": "Close", "at": 200, "a": 1, "how": "reset"}] + \
-        [{"ev": "Chunk", "at": 300, "a": 2, "b": "event: he", "ln": [], "part": True}, {"ev": "Close", "at": 400, "a": 2, "how": "eof"}] + \
+        [{"ev": "Chunk", "at": 300, "a": 2, "b": "event: he", "ln": [], "part": True, "cont": False}, {"ev": "Close", "at": 400, "a": 2, "how": "eof"}] + \
         fr(c, 1, 4000, head(c, 4000, 10)) + fr(c, 2, 4000, head(c, 4000, 10))
     c = base(2, "probe-F4", spe=32)
     out["F4"] = [c] + sub + fr(c, 1, 100, reorg(c, 321, 1, "A")) + fr(c, 2, 150, reorg(c, 321, 1, "A")) + fr(c, 1, 200, reorg(c, 322, 1, "B")) + \
@@ -971,7 +986,7 @@ def mutators():
         return t
 
     def start_result(t):
-        k = first(t, lambda e: e["ev"] == "Start")
+        k = first(t, lambda e: e["ev"] == "Started")
         if k is None:
             return None
         t[k]["ok"] = not t[k]["ok"]
